@@ -1124,7 +1124,9 @@ def clause_retrieve_cache(R, F):
     for c in ins:
         # never overwrite: unreachable once contains_key == true
         ok = False
-        if ck:
+        if "VacantEntry" in (c.target_path or "") + (c.self_ty or ""):
+            ok = True       # `match map.entry(k) { Occupied(e) => return .., Vacant(v) => v }.insert(h)`: a vacant entry exists only for an absent key
+        if ck and not ok:
             sw = fn.succ(ck[0].bb)[0]
             removed = []
             for s in fn.succ(sw):
